@@ -4,6 +4,7 @@ import Pysmi.Model.Compile
 import Pysmi.Model.Writer
 import Pysmi.Model.Borrower
 import Pysmi.Model.Searcher
+import Pysmi.Model.Reader
 /-!
 Line-protocol driver: one JSON object per input line, one JSON value per output line.
 Imports only the import-free model files and `Lean.Data.Json`.
@@ -287,6 +288,71 @@ def opSearcher (j : Json) : Except String Json := do
     | _ => throw "bad searcher kind"
   return .str (match a with | .notFound => "nf" | .notModified => "nm" | .returns => "ret")
 
+/-! ### ops: filereader / zipreader / urlkind -/
+namespace Rd
+open Pysmi.Reader
+
+def opts (j : Json) : Except String Opts := do
+  let b (n : String) := do (← j.getObjVal? n).getBool?
+  return { original := ← b "original", uppercase := ← b "uppercase", lowcase := ← b "lowcase", fuzzy := ← b "fuzzy",
+           exts := ← getList getStr (← j.getObjVal? "exts") }
+
+def fileEnt (c m : Json) : Except String FileEnt := do
+  return { content := ← c.getNat?, mtime := ← m.getInt? }
+
+def jResult : Option (Str × Str × FileEnt) → Json
+  | none => .str "notfound"
+  | some (a, f, e) => Json.mkObj [("alias", jStr a), ("file", jStr f), ("content", e.content),
+      ("mtime", .num (Lean.JsonNumber.fromInt e.mtime))]
+
+def opFileReader (j : Json) : Except String Json := do
+  let o ← opts j
+  let name ← getStr (← j.getObjVal? "name")
+  let index ← getList (fun p => do
+    match (← p.getArr?).toList with
+    | [k, v] => return (← getStr k, ← getStr v)
+    | _ => throw "bad index row") (← j.getObjVal? "index")
+  let useIndex ← (← j.getObjVal? "useIndex").getBool?
+  let dirs ← getList (fun d => do
+    let files ← getList (fun f => do
+      match (← f.getArr?).toList with
+      | [n, c, m] => return (← getStr n, ← fileEnt c m)
+      | _ => throw "bad file row") d
+    let look : Str → Option FileEnt := fun n => (files.find? (·.1 == n)).map (·.2)
+    return look) (← j.getObjVal? "dirs")
+  let large ← getList (fun x => x.getNat?) (← j.getObjVal? "large")
+  match fileVariants o index useIndex name with
+  | none => return .str "indexerror"
+  | some vs =>
+    match fileGetData dirs vs (fun c => large.contains c) with
+    | .notFound => return .str "notfound"
+    | .tooLarge => return .str "toolarge"
+    | .found a f e => return jResult (some (a, f, e))
+
+partial def member (j : Json) : Except String Member := do
+  match (← j.getArr?).toList with
+  | [.str "file", p, c, m] => return .file (← getStr p) (← fileEnt c m)
+  | [.str "dir", p] => return .dirEntry (← getStr p)
+  | [.str "zip", p, inner] => do
+    let ms ← (← inner.getArr?).toList.mapM member
+    return .zip (← getStr p) ms
+  | _ => throw "bad member"
+
+def opZipReader (j : Json) : Except String Json := do
+  let o ← opts j
+  let name ← getStr (← j.getObjVal? "name")
+  let ms ← getList member (← j.getObjVal? "members")
+  let empties ← getList (fun x => x.getNat?) (← j.getObjVal? "empty")
+  let tbl := buildMembers ms []
+  match zipGetData o tbl (fun c => empties.contains c) name with
+  | none => return .str "indexerror"
+  | some r => return jResult r
+
+def opUrlKind (j : Json) : Except String Json := do
+  let k := urlKind (← getStr (← j.getObjVal? "scheme")) (← getStr (← j.getObjVal? "path"))
+  return .str (match k with | .file => "file" | .zip => "zip" | .http => "http" | .ftp => "ftp" | .unsupported => "unsupported")
+end Rd
+
 def handle (j : Json) : Except String Json := do
   let op ← (← j.getObjVal? "op").getStr?
   match op with
@@ -295,6 +361,9 @@ def handle (j : Json) : Except String Json := do
   | "put" => Wr.opPut j
   | "borrow" => opBorrow j
   | "searcher" => opSearcher j
+  | "filereader" => Rd.opFileReader j
+  | "zipreader" => Rd.opZipReader j
+  | "urlkind" => Rd.opUrlKind j
   | "put2" => Wr.opPut2 j
   | _ => throw s!"unknown op {op}"
 
